@@ -276,7 +276,21 @@ func (t *Truth) ObserveIssuance(pre *World, o *Obs, post *World, forPID string) 
 		}
 	}
 	if c := o.CookAfter["rm"]; c != "" && c != o.CookBefore["rm"] {
-		t.Add(Secret{Kind: "rm", Owner: o.UIDAfter(), Val: c, Browser: o.Req.Browser, At: now})
+		// The account a remember token belongs to is the one the server filed
+		// it under (a single request can both rotate one account's cookie and
+		// log another account in, so the session user is not a reliable owner).
+		// A cookie the server has no row for belongs to nobody.
+		owner := ""
+		if h, ok := RememberHash(c); ok {
+			for _, pid := range post.DB.PIDs2() {
+				for _, th := range post.DB.Tokens[pid] {
+					if th == h {
+						owner = pid
+					}
+				}
+			}
+		}
+		t.Add(Secret{Kind: "rm", Owner: owner, Val: c, Browser: o.Req.Browser, At: now})
 	}
 	for _, m := range o.SMS {
 		t.SMSLog = append(t.SMSLog, m)
